@@ -11,6 +11,7 @@ import RtcModel.Lemmas.SrtpRoc
 import RtcModel.Lemmas.SrtpHeader
 import RtcModel.Lemmas.Srtp
 import RtcModel.Lemmas.SrtpTable
+import RtcModel.Lemmas.SrtpToy
 
 namespace RtcModel.Theorems.C04
 open RtcModel.Srtp RtcModel.C04 RtcModel.Generated
@@ -75,10 +76,6 @@ theorem roc_estimate_boundary_behind (roc last : Nat) (hroc : roc < 2 ^ 32) (hla
   split
   · omega
   · split <;> omega
-
-/-- the first packet of a context is taken at the context's rollover count (0 for a new context):
-a receiver that joins after the first wrap cannot know the count (RFC 3711 behaviour). -/
-theorem roc_estimate_first (roc seq : Nat) : estimateRoc roc none seq = roc := rfl
 
 /-- **update_monotone**: `update` never moves the receiver's index backwards, and with the estimate
 of an in-window packet it becomes the maximum of the old index and the packet's index. -/
@@ -164,11 +161,6 @@ theorem index_sync (I0 : Nat) (is : List Nat) (h0 : I0 < 2 ^ 16) (hw : InWindow 
   simp only [recvAll, hst]
   refine ⟨by simp [ha], r, l, hb, ?_⟩
   simpa [index48] using hf
-
-/-- the sender uses the same estimate on its own (forward-moving) sequence numbers: its rollover
-count is the true one for every send history with steps below 2^15 — an instance of `index_sync`. -/
-theorem sender_index_sync (I0 : Nat) (is : List Nat) (h0 : I0 < 2 ^ 16) (hw : InWindow I0 is) :
-    (recvAll (0, none) (I0 :: is)).1 = I0 :: is := (index_sync I0 is h0 hw).1
 
 /-- non-vacuity: three rollovers, loss, reordering across a wrap -/
 example : InWindow 65530 [65540, 65535, 98000, 130000, 129999, 162000, 194000, 226000] := by
@@ -273,23 +265,27 @@ theorem unprotect_protect_rtcp (S : Suite) (cs cr : Ctx) (pkt : Bytes) (hpair : 
   · rw [unprotect_rtcpWire S cs cr pkt _ hlen (by simpa using hidx) hpair.ssrc hpair.profile hpair.rtcp]
 
 /-- **E-bit and index layout** of a protected RTCP packet: the 32-bit word `E ‖ index` sits right
-before the tag (AES-CM/NULL) resp. at the very end (AEAD), with `E = 1`. -/
-theorem srtcp_index_layout (S : Suite) (c : Ctx) (pkt : Bytes) (index : Nat) (hidx : index < 2 ^ 31)
-    (hlen : 8 ≤ pkt.length) :
+before the tag (AES-CM/NULL) resp. at the very end (AEAD); `E = 1` exactly for the encrypting
+profiles (the NULL cipher sends SRTCP in clear with `E = 0`, like its SRTP). -/
+theorem srtcp_index_layout (S : Suite) (c : Ctx) (pkt : Bytes) (index : Nat) (hidx : index < 2 ^ 31) :
     let wire := rtcpWire S c pkt index
-    (c.profile = .gcm → last4 wire = index + 2 ^ 31) ∧
-    (c.profile ≠ .gcm → last4 (wire.take (wire.length - c.profile.rtcpTagLen)) = index + 2 ^ 31) := by
-  have hw : withEBit index = index + 2147483648 := by
-    have : index < 2147483648 := by simpa using hidx
-    simp [withEBit, this]
-  have hlt : index + 2147483648 < 4294967296 := by simp at hidx; omega
-  intro wire
+    let word := if c.profile = .null then index else index + 2 ^ 31
+    (c.profile = .gcm → last4 wire = word) ∧
+    (c.profile ≠ .gcm → last4 (wire.take (wire.length - c.profile.rtcpTagLen)) = word) := by
+  have hi : index < 2147483648 := by simpa using hidx
+  have hlt := (eWord_props c index hi).1
+  have hw : c.eWord index = if c.profile = .null then index else index + 2 ^ 31 := by
+    have : withEBit index = index + 2147483648 := by simp [withEBit, hi]
+    unfold Ctx.eWord Ctx.encrypts
+    cases hp : c.profile <;> simp [this]
+  intro wire word
+  simp only [word, ← hw]
   constructor
   · intro hg
-    simp only [wire, rtcpWire, hg, if_true, hw]
+    simp only [wire, rtcpWire, hg, if_true]
     exact last4_append_be32 _ _ hlt
   · intro hg
-    simp only [wire, rtcpWire, hg, if_false, hw]
+    simp only [wire, rtcpWire, hg, if_false]
     rw [List.length_append, rtcpTag_length S c _ hg, Nat.add_sub_cancel, List.take_left' rfl]
     exact last4_append_be32 _ _ hlt
 
@@ -309,6 +305,152 @@ example (S : Suite) (mk ms : Bytes) (cs cr : Ctx)
 example : Pkt.WF ⟨⟨true, 96, 65535, 7, 0xdeadbeef, [1, 2], some ⟨0xBEDE, [1, 2, 3, 4]⟩⟩, [9, 9, 9], 4⟩ := by
   refine ⟨?_, by decide⟩
   constructor <;> simp <;> decide
+
+/-! ### Round trip across rollovers, reordering and loss — composed on the context functions -/
+
+/-- the protected packet a sender holding the keys of `cs` emits for packet `d.2` whose true 48-bit
+index is `d.1` -/
+def wireOf (S : Suite) (cs : Ctx) (d : Nat × Pkt) : Bytes :=
+  writeHdr d.2.hdr (d.2.padLen ≠ 0) ++ rtpWireBody S cs d.2 (d.1 / 65536)
+
+/-- `SrtpContext::protect` on a list of packets, in order -/
+def sendAll (S : Suite) : Ctx → List Pkt → List (Except Err Bytes)
+  | _, [] => []
+  | c, p :: ps => (c.protectRtp S p).1 :: sendAll S (c.protectRtp S p).2 ps
+
+/-- `SrtpPacket::parse` + `SrtpContext::unprotect` on a list of datagrams, in order -/
+def receiveAll (S : Suite) : Ctx → List Bytes → List (Except (ParseErr ⊕ Err) Pkt)
+  | _, [] => []
+  | c, raw :: rest =>
+    match parseHdr raw with
+    | .error e => .error (.inl e) :: receiveAll S c rest
+    | .ok (h, p, body) =>
+      (match (c.unprotectRtp S h p body).1 with | .ok q => .ok q | .error e => .error (.inr e)) ::
+        receiveAll S (c.unprotectRtp S h p body).2 rest
+
+/-- a context whose rollover state is the 48-bit index `R` -/
+def AtIndex (c : Ctx) (R : Nat) : Prop :=
+  c.roc < 2 ^ 32 ∧ ∃ l, c.last = some l ∧ l < 2 ^ 16 ∧ index48 c.roc l = R
+
+/-- genuine traffic: well-formed packets whose sequence number is the low half of their true index -/
+def Genuine (d : Nat × Pkt) : Prop := d.2.WF ∧ d.2.hdr.seq = d.1 % 2 ^ 16
+
+private theorem in_window_step (c : Ctx) (R I : Nat) (hc : AtIndex c R)
+    (h1 : (R : Int) - I < 2 ^ 15) (h2 : (I : Int) - R < 2 ^ 15) (h3 : I < 2 ^ 48) :
+    c.estimate (I % 2 ^ 16) = I / 2 ^ 16 ∧ AtIndex (c.updated (I % 2 ^ 16) (I / 2 ^ 16)) (max R I) := by
+  obtain ⟨hroc, l, hl, hll, hR⟩ := hc
+  subst hR
+  have he := roc_estimate_correct c.roc l I hroc hll h3 h1 h2
+  refine ⟨by simp only [Ctx.estimate, hl]; exact he, ?_⟩
+  simp only [Nat.reducePow] at *
+  have hdiv : I / 65536 < 4294967296 := by omega
+  have hmod : I % 65536 < 65536 := Nat.mod_lt _ (by decide)
+  simp only [AtIndex, Ctx.updated, hl, updateRoc_some, index48, Nat.reducePow]
+  split
+  · exact ⟨hdiv, I % 65536, rfl, hmod, by simp only [index48] at *; omega⟩
+  · exact ⟨hroc, l, rfl, hll, by simp only [index48] at *; omega⟩
+
+private theorem rtpWireBody_keys (S : Suite) (a b : Ctx) (p : Pkt) (roc : Nat)
+    (hs : a.ssrc = b.ssrc) (hp : a.profile = b.profile) (hk : a.rtp = b.rtp) :
+    rtpWireBody S a p roc = rtpWireBody S b p roc := by
+  simp [rtpWireBody, cmBody, rtpTag, Ctx.encrypts, hs, hp, hk]
+
+/-- sender side of the composition -/
+theorem sender_history (S : Suite) (sent : List (Nat × Pkt)) (cs c : Ctx) (R : Nat)
+    (hs : c.ssrc = cs.ssrc) (hp : c.profile = cs.profile) (hk : c.rtp = cs.rtp)
+    (hc : AtIndex c R) (hg : ∀ d ∈ sent, Genuine d) (hw : InWindow R (sent.map (·.1))) :
+    sendAll S c (sent.map (·.2)) = sent.map (fun d => .ok (wireOf S cs d)) := by
+  induction sent generalizing c R with
+  | nil => rfl
+  | cons d rest ih =>
+    obtain ⟨⟨h1, h2, h3⟩, hrest⟩ := hw
+    obtain ⟨wf, hseq⟩ := hg d (by simp)
+    obtain ⟨he, hc'⟩ := in_window_step c R d.1 hc h1 h2 h3
+    have hprot := protectRtp_eq S c d.2 (validHdr_of_WF _ wf.hdr)
+    rw [hseq, he] at hprot
+    simp only [List.map_cons, sendAll, hprot, wireOf, Nat.reducePow]
+    rw [rtpWireBody_keys S c cs d.2 _ hs hp hk]
+    congr 1
+    exact ih _ _ hs hp hk (by simpa [Nat.reducePow] using hc') (fun x hx => hg x (by simp [hx])) hrest
+
+/-- receiver side: any delivery order / loss / duplication inside the window -/
+theorem receiver_history (S : Suite) (deliveries : List (Nat × Pkt)) (cs c : Ctx) (R : Nat)
+    (hs : c.ssrc = cs.ssrc) (hp : c.profile = cs.profile) (hk : c.rtp = cs.rtp)
+    (hc : AtIndex c R) (hg : ∀ d ∈ deliveries, Genuine d) (hw : InWindow R (deliveries.map (·.1))) :
+    receiveAll S c (deliveries.map (wireOf S cs)) = deliveries.map (fun d => .ok d.2) := by
+  induction deliveries generalizing c R with
+  | nil => rfl
+  | cons d rest ih =>
+    obtain ⟨⟨h1, h2, h3⟩, hrest⟩ := hw
+    obtain ⟨wf, hseq⟩ := hg d (by simp)
+    obtain ⟨he, hc'⟩ := in_window_step c R d.1 hc h1 h2 h3
+    have hun := unprotect_wireBody S cs c d.2 wf hs hp hk
+    rw [hseq, he] at hun
+    simp only [List.map_cons, receiveAll, wireOf, parseHdr_writeHdr _ _ _ wf.hdr, Nat.reducePow] at hun ⊢
+    rw [hun]
+    simp only
+    congr 1
+    exact ih _ _ hs hp hk (by simpa [Nat.reducePow, hseq] using hc') (fun x hx => hg x (by simp [hx])) hrest
+
+
+private theorem fresh_step (c : Ctx) (I : Nat) (hroc : c.roc = 0) (hlast : c.last = none) (hI : I < 2 ^ 16) :
+    c.estimate (I % 2 ^ 16) = I / 2 ^ 16 ∧ AtIndex (c.updated (I % 2 ^ 16) (I / 2 ^ 16)) I := by
+  simp only [Nat.reducePow] at hI
+  have hm : I % 65536 = I := Nat.mod_eq_of_lt hI
+  have hd : I / 65536 = 0 := by omega
+  simp only [Ctx.estimate, hlast, hroc, estimateRoc_none, AtIndex, Ctx.updated, updateRoc_none, Nat.reducePow, hm, hd]
+  exact ⟨trivial, by decide, I, rfl, hI, by simp [index48]⟩
+
+/-- **reorder_loss_roundtrip** — the composed statement the property asks for, on `SrtpContext::protect`
+/ `SrtpPacket::parse` / `SrtpContext::unprotect` themselves: a sender context at index `Rs` protects any
+send history `sent` (true indices within ±2^15 of its highest so far — in particular any forward-moving
+stream, through any number of rollovers); a paired receiver context at index `Rr` is handed ANY list of
+those packets — any subset (loss), any order (reordering), repetitions — in which each arrival is within
+±2^15 of the highest index it has accepted so far. Then the sender emits exactly `wireOf` each packet,
+and the receiver returns exactly the original packet for every delivery. No bound on either length. -/
+theorem reorder_loss_roundtrip (S : Suite) (cs cr : Ctx) (hpair : Paired cs cr) (Rs Rr : Nat)
+    (hcs : AtIndex cs Rs) (hcr : AtIndex cr Rr)
+    (sent deliveries : List (Nat × Pkt)) (hg : ∀ d ∈ sent, Genuine d)
+    (hws : InWindow Rs (sent.map (·.1)))
+    (hsub : ∀ d ∈ deliveries, d ∈ sent) (hwr : InWindow Rr (deliveries.map (·.1))) :
+    sendAll S cs (sent.map (·.2)) = sent.map (fun d => .ok (wireOf S cs d)) ∧
+    (∀ d ∈ deliveries, wireOf S cs d ∈ sent.map (wireOf S cs)) ∧
+    receiveAll S cr (deliveries.map (wireOf S cs)) = deliveries.map (fun d => .ok d.2) :=
+  ⟨sender_history S sent cs cs Rs rfl rfl rfl hcs hg hws,
+   fun d hd => List.mem_map.mpr ⟨d, hsub d hd, rfl⟩,
+   receiver_history S deliveries cs cr Rr hpair.ssrc hpair.profile hpair.rtp hcr
+     (fun d hd => hg d (hsub d hd)) hwr⟩
+
+/-- the same from two NEW contexts (rollover counter 0, nothing seen): the first packet sent and the
+first packet delivered are from the first sequence cycle. -/
+theorem reorder_loss_roundtrip_fresh (S : Suite) (cs cr : Ctx) (hpair : Paired cs cr)
+    (hs0 : cs.roc = 0 ∧ cs.last = none) (hr0 : cr.roc = 0 ∧ cr.last = none)
+    (d0 e0 : Nat × Pkt) (sent deliveries : List (Nat × Pkt))
+    (hd0 : d0.1 < 2 ^ 16) (he0 : e0.1 < 2 ^ 16)
+    (hg : ∀ d ∈ d0 :: sent, Genuine d) (hws : InWindow d0.1 (sent.map (·.1)))
+    (hsub : ∀ d ∈ e0 :: deliveries, d ∈ d0 :: sent) (hwr : InWindow e0.1 (deliveries.map (·.1))) :
+    sendAll S cs ((d0 :: sent).map (·.2)) = (d0 :: sent).map (fun d => .ok (wireOf S cs d)) ∧
+    receiveAll S cr ((e0 :: deliveries).map (wireOf S cs)) = (e0 :: deliveries).map (fun d => .ok d.2) := by
+  constructor
+  · obtain ⟨wf, hseq⟩ := hg d0 (by simp)
+    obtain ⟨he, hc'⟩ := fresh_step cs d0.1 hs0.1 hs0.2 hd0
+    have hprot := protectRtp_eq S cs d0.2 (validHdr_of_WF _ wf.hdr)
+    rw [hseq, he] at hprot
+    simp only [List.map_cons, sendAll, hprot, wireOf, Nat.reducePow]
+    congr 1
+    exact sender_history S sent cs _ d0.1 rfl rfl rfl (by simpa [Nat.reducePow] using hc')
+      (fun x hx => hg x (by simp [hx])) hws
+  · obtain ⟨wf, hseq⟩ := hg e0 (hsub e0 (by simp))
+    obtain ⟨he, hc'⟩ := fresh_step cr e0.1 hr0.1 hr0.2 he0
+    have hun := unprotect_wireBody S cs cr e0.2 wf hpair.ssrc hpair.profile hpair.rtp
+    rw [hseq, he] at hun
+    simp only [List.map_cons, receiveAll, wireOf, parseHdr_writeHdr _ _ _ wf.hdr, Nat.reducePow] at hun ⊢
+    rw [hun]
+    simp only
+    congr 1
+    exact receiver_history S deliveries cs _ e0.1 hpair.ssrc hpair.profile hpair.rtp
+      (by simpa [Nat.reducePow, hseq] using hc')
+      (fun x hx => hg x (hsub x (by simp [hx]))) hwr
 
 /-! ### Round trip through the session API, any number of SSRCs -/
 
@@ -333,6 +475,7 @@ theorem session_roundtrip_rtp (S : Suite) (s r : Sess) (now now' : Nat) (p : Pkt
     (hl : Linked S s r)
     (hsync0 : rocOf s.tx p.hdr.ssrc = rocOf r.rx p.hdr.ssrc) :
     ∃ wire, (s.protectRtp S now p).1 = .ok wire ∧
+      (∃ body, parseHdr wire = .ok (p.hdr, decide (p.padLen ≠ 0), body)) ∧
       (r.receiveRtp S now' wire).1 = .ok p ∧
       Linked S (s.protectRtp S now p).2 (r.receiveRtp S now' wire).2 ∧
       rocOf (s.protectRtp S now p).2.tx p.hdr.ssrc = rocOf (r.receiveRtp S now' wire).2.rx p.hdr.ssrc := by
@@ -362,7 +505,7 @@ theorem session_roundtrip_rtp (S : Suite) (s r : Sess) (now now' : Nat) (p : Pkt
   obtain ⟨hok, hroc2⟩ := hacc p (by show (cr.unprotectRtp S _ _ _).1 = _; rw [hun])
   have hu : (r.unprotectRtp S now' p.hdr (p.padLen ≠ 0) (rtpWireBody S cs p (cs.estimate p.hdr.seq))).1 = .ok p := hok
   obtain ⟨hrecv, hrecvs⟩ := receiveRtp_ok S r now' _ p.hdr (p.padLen ≠ 0) _ p (parseHdr_writeHdr _ _ _ wf.hdr) hu
-  refine ⟨_, hres, hrecv, ?_, ?_⟩
+  refine ⟨_, hres, ⟨_, parseHdr_writeHdr _ _ _ wf.hdr⟩, hrecv, ?_, ?_⟩
   · -- both sessions keep their keys and table invariants
     have t := protectRtp_kept S s now p hl.txInv
     have q := unprotectRtp_kept S r now' p.hdr (p.padLen ≠ 0) (rtpWireBody S cs p (cs.estimate p.hdr.seq)) hl.rxInv
@@ -398,12 +541,150 @@ theorem session_stream_roundtrip (S : Suite) (k now : Nat) (ps : List Pkt) (s r 
   | cons p ps ih =>
     obtain ⟨wf, hk⟩ := hps p (by simp)
     subst hk
-    obtain ⟨wire, h1, h2, h3, h4⟩ := session_roundtrip_rtp S s r now now p wf hl hsync
+    obtain ⟨wire, h1, _, h2, h3, h4⟩ := session_roundtrip_rtp S s r now now p wf hl hsync
     simp only [streamThrough, h1, h2, List.map_cons]
     rw [ih _ _ h3 (fun q hq => hps q (by simp [hq])) h4]
 
 example (S : Suite) (mk ms : Bytes) (h1 : srtpKeyLen ≤ mk.length) (h2 : Profile.gcm.saltLen ≤ ms.length) :
     Linked S (Sess.new .gcm mk ms mk ms) (Sess.new .gcm mk ms mk ms) :=
   ⟨rfl, rfl, rfl, h1, h2, fun _ h => by simp [Sess.new] at h, fun _ h => by simp [Sess.new] at h⟩
+
+/-! ### Many SSRCs and time: the full statement is FALSE on the current code (known finding) -/
+
+/-- a send/delivery schedule through a sender and a receiver session: at time `now` the sender
+protects `p`; if `deliver` the receiver gets the packet at once (else it is lost). `true` iff every
+protect succeeded and every delivered packet was returned exactly. -/
+def allDelivered (S : Suite) : Sess → Sess → List (Nat × Bool × Pkt) → Bool
+  | _, _, [] => true
+  | s, r, (now, deliver, p) :: rest =>
+    match (s.protectRtp S now p).1 with
+    | .error _ => false
+    | .ok wire =>
+      if deliver then
+        (match (r.receiveRtp S now wire).1 with | .ok q => q == p | .error _ => false) &&
+          allDelivered S (s.protectRtp S now p).2 (r.receiveRtp S now wire).2 rest
+      else allDelivered S (s.protectRtp S now p).2 r rest
+
+/-- FULL STATEMENT of "round trip for any number of SSRCs" at the session API: linked sessions that
+agree on every SSRC's rollover state return every delivered packet of every in-order schedule
+(any SSRCs, any times, any losses). -/
+def ManySsrcRoundtrip (S : Suite) : Prop :=
+  ∀ (s r : Sess) (sched : List (Nat × Bool × Pkt)), Linked S s r → (∀ k, rocOf s.tx k = rocOf r.rx k) →
+    (∀ x ∈ sched, x.2.2.WF) → allDelivered S s r sched = true
+
+namespace Witness
+def key16 : Bytes := List.replicate 16 1
+def salt14 : Bytes := List.replicate 14 2
+def pkt (ssrc seq : Nat) : Pkt := ⟨⟨false, 96, seq, 0, ssrc, [], none⟩, [1, 2, 3], 0⟩
+def s0 : Sess := Sess.new .cm80 key16 salt14 key16 salt14
+/-- 33 streams send one packet each; stream 7 sends 65000, 65500, 100, 200 (rollover counter 1) -/
+def warmup : List (Nat × Bool × Pkt) :=
+  (List.range 33).map (fun k => (0, true, pkt (1000 + k) 5)) ++
+  [(0, true, pkt 7 65000), (0, true, pkt 7 65500), (0, true, pkt 7 100), (0, true, pkt 7 200)]
+/-- 61 s later the sender sends a packet of another stream (lost), then stream 7 resumes -/
+def txEvicted : List (Nat × Bool × Pkt) := warmup ++ [(61, false, pkt 1000 6), (61, true, pkt 7 300)]
+/-- the receiver's context of stream 7 is 61 s old (the sender used it 30 s ago, packet lost);
+a delivered packet of another stream evicts it, then stream 7 resumes -/
+def rxEvicted : List (Nat × Bool × Pkt) :=
+  warmup ++ [(31, false, pkt 7 250), (61, true, pkt 1000 6), (61, true, pkt 7 300)]
+/-- the same traffic without the idle time -/
+def noIdle : List (Nat × Bool × Pkt) := warmup ++ [(59, false, pkt 1000 6), (59, true, pkt 7 300)]
+
+private theorem pkt_WF (ssrc seq : Nat) (h1 : ssrc < 4294967296) (h2 : seq < 65536) : (pkt ssrc seq).WF := by
+  refine ⟨⟨by simp [pkt], h2, by simp [pkt], h1, by simp [pkt], by simp [pkt], ?_, ?_, ?_⟩, by simp [pkt]⟩ <;>
+    (intro e he; simp [pkt] at he)
+
+private theorem linked0 : Linked toySuite s0 s0 :=
+  ⟨rfl, rfl, rfl, by decide, by decide, fun _ h => by simp [s0, Sess.new] at h, fun _ h => by simp [s0, Sess.new] at h⟩
+
+private theorem wf_of_mem {l : List (Nat × Bool × Pkt)} {x : Nat × Bool × Pkt}
+    (hl : ∀ y ∈ l, ∃ a b, y.2.2 = pkt a b ∧ a < 4294967296 ∧ b < 65536) (hx : x ∈ l) : x.2.2.WF := by
+  obtain ⟨a, b, h, ha, hb⟩ := hl x hx; rw [h]; exact pkt_WF a b ha hb
+
+private theorem warmup_shape : ∀ y ∈ warmup, ∃ a b, y.2.2 = pkt a b ∧ a < 4294967296 ∧ b < 65536 := by
+  intro y hy
+  simp only [warmup, List.mem_append, List.mem_map, List.mem_range, List.mem_cons, List.not_mem_nil, or_false] at hy
+  rcases hy with ⟨k, hk, rfl⟩ | rfl | rfl | rfl | rfl
+  · exact ⟨1000 + k, 5, rfl, by omega, by decide⟩
+  all_goals exact ⟨_, _, rfl, by decide, by decide⟩
+end Witness
+
+open Witness in
+set_option maxRecDepth 1000000 in
+/-- **many_ssrc_roundtrip_witness** (KNOWN FINDING `roundtrip:rtp-genuine-rejected:<profile>:tx-evicted`,
+`…:rx-evicted`): with more than `SSRC_CONTEXT_HIGH_WATERMARK` contexts, a stream whose rollover counter
+is 1 and that pauses for `SSRC_INACTIVITY_EVICT` is evicted from the sender's (resp. the receiver's)
+table as soon as ANOTHER stream is used; its rollover counter restarts at 0 on that side only and its
+next genuine packet fails authentication. The full statement is false — concrete schedule, both
+directions; without the idle time the same traffic goes through. Replayed on the real code by the
+harness cases `tx-evicted` / `rx-evicted`. -/
+theorem many_ssrc_roundtrip_witness : ¬ (∀ S, ManySsrcRoundtrip S) ∧
+    allDelivered toySuite s0 s0 txEvicted = false ∧ allDelivered toySuite s0 s0 rxEvicted = false ∧
+    allDelivered toySuite s0 s0 noIdle = true := by
+  have h1 : allDelivered toySuite s0 s0 txEvicted = false := by decide
+  refine ⟨fun h => ?_, h1, by decide, by decide⟩
+  have := h toySuite s0 s0 txEvicted linked0 (fun _ => rfl) (fun x hx => by
+    simp only [txEvicted, List.mem_append, List.mem_cons, List.not_mem_nil, or_false] at hx
+    rcases hx with hx | rfl | rfl
+    · exact wf_of_mem warmup_shape hx
+    · exact pkt_WF _ _ (by decide) (by decide)
+    · exact pkt_WF _ _ (by decide) (by decide))
+  rw [h1] at this
+  exact absurd this (by decide)
+
+
+/-- **many_ssrc_roundtrip_partial** — the part of `ManySsrcRoundtrip` that does hold: any number of
+SSRCs, interleaved arbitrarily, any sequence numbers, as long as NO context idles for the eviction
+time: all activity (the tables' last-use stamps and the schedule) lies in a window shorter than
+`SSRC_INACTIVITY_EVICT` starting at `T`, and nothing is lost. (The excluded point is exactly the
+witness above; loss is covered per context by `reorder_loss_roundtrip`.) -/
+theorem many_ssrc_roundtrip_partial (S : Suite) (T : Nat) (sched : List (Nat × Bool × Pkt)) (s r : Sess)
+    (hl : Linked S s r) (hsync : ∀ k, rocOf s.tx k = rocOf r.rx k)
+    (hwf : ∀ x ∈ sched, x.2.2.WF) (hdel : ∀ x ∈ sched, x.2.1 = true)
+    (ht : ∀ x ∈ sched, T ≤ x.1 ∧ x.1 < T + ssrcInactivityEvictSecs)
+    (hus : UsedSince T s.tx) (hur : UsedSince T r.rx) :
+    allDelivered S s r sched = true := by
+  induction sched generalizing s r with
+  | nil => rfl
+  | cons x rest ih =>
+    obtain ⟨now, deliver, p⟩ := x
+    have hd : deliver = true := hdel (now, deliver, p) (List.mem_cons_self ..)
+    subst hd
+    obtain ⟨hT, hn⟩ := ht _ (List.mem_cons_self ..)
+    simp only at hT hn
+    have wf : p.WF := hwf _ (List.mem_cons_self ..)
+    obtain ⟨wire, h1, ⟨body, hparse⟩, h2, h3, h4⟩ := session_roundtrip_rtp S s r now now p wf hl (hsync p.hdr.ssrc)
+    have ftx := withTx_frame S s T now p.hdr.ssrc (fun c => c.protectRtp S p) hus hT hn
+      (fun c => protectRtp_ssrc S c p) (fun c => protectRtp_lastUsed S c p)
+    have frx := withRx_frame S r T now p.hdr.ssrc (fun c => c.unprotectRtp S p.hdr (p.padLen ≠ 0) body) hur hT hn
+      (fun c => unprotectRtp_ssrc S c _ _ _) (fun c => unprotectRtp_lastUsed S c _ _ _)
+    have hrs := receiveRtp_snd S r now wire p.hdr (p.padLen ≠ 0) body hparse
+    have u1 : UsedSince T (s.protectRtp S now p).2.tx := ftx.1
+    have f1 : ∀ k, k ≠ p.hdr.ssrc → rocOf (s.protectRtp S now p).2.tx k = rocOf s.tx k := ftx.2
+    have u2 : UsedSince T (r.receiveRtp S now wire).2.rx := by rw [hrs]; exact frx.1
+    have f2 : ∀ k, k ≠ p.hdr.ssrc → rocOf (r.receiveRtp S now wire).2.rx k = rocOf r.rx k := by
+      rw [hrs]; exact frx.2
+    simp only [allDelivered, h1, h2, if_true, beq_self_eq_true, Bool.true_and]
+    refine ih _ _ h3 (fun k => ?_) (fun y hy => hwf y (List.mem_cons_of_mem _ hy))
+      (fun y hy => hdel y (List.mem_cons_of_mem _ hy)) (fun y hy => ht y (List.mem_cons_of_mem _ hy)) u1 u2
+    by_cases hk : k = p.hdr.ssrc
+    · rw [hk]; exact h4
+    · rw [f1 k hk, f2 k hk]; exact hsync k
+
+end RtcModel.Theorems.C04
+
+namespace RtcModel.Theorems.C04
+open RtcModel.Srtp RtcModel.C04 RtcModel.Generated Witness
+
+/-- non-vacuity of `many_ssrc_roundtrip_partial`: 34 streams, one of them across a rollover -/
+example : allDelivered toySuite s0 s0 warmup = true := by
+  have hsh : ∀ y ∈ warmup, y.1 = 0 ∧ y.2.1 = true := by
+    intro y hy
+    simp only [warmup, List.mem_append, List.mem_map, List.mem_range, List.mem_cons, List.not_mem_nil, or_false] at hy
+    rcases hy with ⟨k, _, rfl⟩ | rfl | rfl | rfl | rfl <;> exact ⟨rfl, rfl⟩
+  exact many_ssrc_roundtrip_partial toySuite 0 warmup s0 s0 linked0 (fun _ => rfl)
+    (fun x hx => wf_of_mem warmup_shape hx) (fun x hx => (hsh x hx).2)
+    (fun x hx => by rw [(hsh x hx).1]; exact ⟨Nat.le_refl _, by decide⟩)
+    (fun _ h => by simp [s0, Sess.new] at h) (fun _ h => by simp [s0, Sess.new] at h)
 
 end RtcModel.Theorems.C04
